@@ -187,6 +187,31 @@ var extTypes = []ExtType{
 	{"Phi", []string{"as:Object"}, nil, false},
 	{"Chi", []string{"Phi"}, nil, false},
 	{"Psi", []string{"as:Object"}, nil, false},
+	// depth: a single-parent chain nine levels below as:Object, with two siblings on its fourth level and a
+	// child of the first sibling; five levels below as:TentativeAccept (itself four below as:Object)
+	{"Deepone", []string{"as:Object"}, nil, false},
+	{"Deeptwo", []string{"Deepone"}, nil, false},
+	{"Deepthree", []string{"Deeptwo"}, nil, false},
+	{"Deepfour", []string{"Deepthree"}, nil, false},
+	{"Deepfoursib", []string{"Deepthree"}, nil, false},
+	{"Deepfive", []string{"Deepfour"}, nil, false},
+	{"Deepsix", []string{"Deepfive"}, nil, false},
+	{"Deepseven", []string{"Deepsix"}, nil, false},
+	{"Deepeight", []string{"Deepseven"}, nil, false},
+	{"Deepnine", []string{"Deepeight"}, nil, false},
+	{"Tenone", []string{"as:TentativeAccept"}, nil, false},
+	{"Tentwo", []string{"Tenone"}, nil, false},
+	{"Tenthree", []string{"Tentwo"}, nil, false},
+	{"Tenfour", []string{"Tenthree"}, nil, false},
+	{"Tenfive", []string{"Tenfour"}, nil, false},
+	// two stacked multi-parent types: Both < [First, Second], First < [Pa, Pb]; disjointness declared on Second
+	{"Pa", []string{"as:Object"}, nil, false},
+	{"Pb", []string{"as:Object"}, nil, false},
+	{"Other", []string{"as:Object"}, nil, false},
+	{"First", []string{"Pa", "Pb"}, nil, false},
+	{"Second", []string{"as:Object"}, []string{"Other"}, false},
+	{"Both", []string{"First", "Second"}, nil, false},
+	{"Bothkid", []string{"Both"}, nil, false},
 	// a typeless type without parents, as the shipped PublicKey is
 	{"Omicron", nil, nil, true},
 }
